@@ -116,7 +116,7 @@ pub fn check(tape: &[u32]) -> CheckResult {
 pub fn run(run: &mut Run) {
     run.rule = "cases: well-formed sprites in each pixel format from a proptest tape (sparse palettes, alpha<255, transparent index biased to occurring values, background flag, raw and zlib storage, inside/straddling/off-canvas/extreme offsets, links forward and backward, tilemap cels). Oracle: Cel::{image,is_empty,top_left,is_tilemap,frame,layer} equal a direct formula written from the statement (no blend code); linked cel image equals its target's. non-trivial: sprite has a cel that is non-RGBA, or has opacity product < 255, or is clipped, or is a link, or contains the transparent index; distinct by file hash".into();
     run.assumptions = vec!["fully transparent pixels compare equal regardless of RGB (the repository's image equivalence)".into()];
-    let (lanes, cases) = if run.thorough() { (16, 30000) } else { (16, 1000) };
+    let (lanes, cases) = if run.thorough() { (16, 30000) } else { (16, 5000) };
     run_tapes(run, lanes, cases, 1200, &check);
 }
 
